@@ -111,6 +111,11 @@ def gen_strict_chain(ctx, hb, rng, tier):
                 c1.append("hash %s %d %s" % (v, o, hx(suites.gen_data(rng, L))))
         for _ in range(n):
             c1.append("hash %s %d %s" % (v, rng.below(32) | 4, hx(suites.gen_data(rng, 50 + rng.below(700)))))
+        # sizes around powers of two (+/- the 4 window-filling bytes): block-wise update paths
+        for k in range(6, 14):
+            for d in (0, 4, 5, -1):
+                c1.append("hash %s 28 %s" % (v, hx(suites.gen_data(rng, 2 ** k + d, 0))))
+        c1.append("hash %s 28 %s" % (v, hx(suites.gen_data(rng, 3 * 4096 + 4, 0))))
     o1 = core.run_cases(hb, c1, tag="c15a")
     c2 = []
     src = []
